@@ -1,5 +1,8 @@
 #![allow(dead_code)]
 mod util;
+mod c19;
+mod c18;
+mod c05;
 mod c07;
 mod c08;
 mod c14;
@@ -36,6 +39,9 @@ fn main() {
         "c14" => c14::main(&a),
         "c08" => c08::main(&a),
         "c07" => c07::main(&a),
+        "c05" => c05::main(&a),
+        "c18" => c18::main(&a),
+        "c19" => c19::main(&a),
         other => {
             eprintln!("unknown driver {other}");
             std::process::exit(2);
